@@ -45,12 +45,15 @@ func newPeerCtx() (context.Context, context.CancelFunc) {
 
 func (s *memStream) Context() context.Context { return s.ctx }
 func (s *memStream) Send(r *discovery.DiscoveryResponse) error {
+	if s.cutAfter == 0 {
+		s.cancel() // the stream breaks before the first response gets through
+	}
 	if s.ctx.Err() != nil {
 		return s.ctx.Err()
 	}
 	s.inbox = append(s.inbox, r)
 	s.sends++
-	if s.cutAfter >= 0 && s.sends >= s.cutAfter {
+	if s.cutAfter > 0 && s.sends >= s.cutAfter {
 		s.cancel()
 	}
 	return nil
@@ -77,12 +80,15 @@ type memDeltaStream struct {
 
 func (s *memDeltaStream) Context() context.Context { return s.ctx }
 func (s *memDeltaStream) Send(r *discovery.DeltaDiscoveryResponse) error {
+	if s.cutAfter == 0 {
+		s.cancel() // the stream breaks before the first response gets through
+	}
 	if s.ctx.Err() != nil {
 		return s.ctx.Err()
 	}
 	s.inbox = append(s.inbox, r)
 	s.sends++
-	if s.cutAfter >= 0 && s.sends >= s.cutAfter {
+	if s.cutAfter > 0 && s.sends >= s.cutAfter {
 		s.cancel()
 	}
 	return nil
